@@ -220,3 +220,22 @@ void h_objval(void)
    CANARY();
 }
 #endif
+
+#ifdef INST_PRESOLOBJ
+/* _storeSolutionRealFromPresol(), objective region: with zero columns the stored objective is exactly the objective
+ * offset (the corner case that pins the offset term of "objective = c'x + offset"); for n > 0 only memory safety and
+ * termination are claimed (floating-point dot product). */
+double w_presolobj(double offset, int n, double* primal, double* obj)
+__CPROVER_requires(0 <= n && n <= CAP && g_n == n && NOTNAN(offset))
+__CPROVER_requires(__CPROVER_is_fresh(primal, CAP * sizeof(double)) && __CPROVER_is_fresh(obj, CAP * sizeof(double)))
+__CPROVER_assigns()
+__CPROVER_ensures(n == 0 ==> __CPROVER_return_value == offset)
+;
+void h_presolobj(void)
+{
+   double offset; int n; double* primal; double* obj;
+   g_n = nondet_int();
+   w_presolobj(offset, n, primal, obj);
+   CANARY();
+}
+#endif
